@@ -100,7 +100,17 @@ template <class A> void cmp_run(const VfLD* init, const int* ops, const VfLD* ar
   A x = make<A, T>(init);
   for (int k = 0; k < nops; k++) {
     const VfLD* a = args + 9 * k;
-    if (ops[k] <= 1) {
+    if (ops[k] >= 4) {
+      // the object is its own operand: x += x, x -= x, self copy-assignment, move-assignment from a copy of itself
+      flat(x, stored_args + 9 * k);
+      const A& self = x;
+      switch (ops[k]) {
+        case 4: if (mode == 0) x += self; else x = x + self; break;
+        case 5: if (mode == 0) x -= self; else x = x - self; break;
+        case 6: if (mode == 0) x = self; else x = A(self); break;
+        default: { A t(self); x = std::move(t); break; }
+      }
+    } else if (ops[k] <= 1) {
       const A y = make<A, T>(a); flat(y, stored_args + 9 * k);
       if (mode == 0) { if (ops[k] == 0) x += y; else x -= y; } else { if (ops[k] == 0) x = x + y; else x = x - y; }
     } else {
